@@ -2,7 +2,7 @@
 //!
 //! Oracle: an independent formatter built on the exact decimal expansion of the binary double.
 
-use crate::common::{literal, Cfg, Slot};
+use crate::common::{literal, Cfg, Slot, NT, V};
 use crate::engine::{Acc, Ctx, Prop, Verdict, Worker};
 use crate::vocab::vocab;
 use proptest::prelude::*;
@@ -373,6 +373,14 @@ pub struct UnitFormat {
     pub rounding: bool,
     /// index into the four reading conventions
     pub seps: u8,
+    /// which of the three options are given (bit 0 digits, bit 1 rounding, bit 2 zero removal); an option that is
+    /// not given (None) takes the built-in units' value: 2 digits, rounding on, zero fractions removed
+    #[serde(default = "all_given")]
+    pub given: u8,
+}
+
+fn all_given() -> u8 {
+    7
 }
 
 pub struct CustomUnitFormat;
@@ -390,11 +398,13 @@ impl Prop for CustomUnitFormat {
         let (dec, thou) = PRINT_SEPS[c.seps as usize % 4];
         let cfg = Cfg::seps(dec, thou);
         let line = format!("{} zib", literal(v, dec, "", false));
-        let rendered = format!("[{} unit options digits={} rounding={} remove_zero={}] {} (value {:?})", cfg.label(), c.digits, c.rounding, c.remove_zero, line, v);
+        let (o_digits, o_rounding, o_remove) = (if c.given & 1 != 0 { Some(c.digits) } else { None }, if c.given & 2 != 0 { Some(c.rounding) } else { None }, if c.given & 4 != 0 { Some(c.remove_zero) } else { None });
+        let (digits, rounding, remove_zero) = (o_digits.unwrap_or(2), o_rounding.unwrap_or(true), o_remove.unwrap_or(true));
+        let rendered = format!("[{} unit options digits={:?} rounding={:?} remove_zero={:?}] {} (value {:?})", cfg.label(), o_digits, o_rounding, o_remove, line, v);
         let mut calc = crate::common::build_calc(&cfg);
         let ok = crate::engine::guarded(|| {
             calc.add_dynamic_type("zibs".to_string())
-                && calc.add_dynamic_type_item("zibs".to_string(), 1, "{value} zib".to_string(), vec!["{NUMBER:value} {TEXT:type:zib}".to_string()], "{value} / 10".to_string(), "{value} * 10".to_string(), vec!["zib".to_string()], Some(c.digits), Some(c.rounding), Some(c.remove_zero))
+                && calc.add_dynamic_type_item("zibs".to_string(), 1, "{value} zib".to_string(), vec!["{NUMBER:value} {TEXT:type:zib}".to_string()], "{value} / 10".to_string(), "{value} * 10".to_string(), vec!["zib".to_string()], o_digits, o_rounding, o_remove)
         });
         match ok {
             Ok(true) => {}
@@ -406,7 +416,7 @@ impl Prop for CustomUnitFormat {
         match crate::common::eval_on(&calc, "en", &line) {
             Ok(o) => match o.slots.first() {
                 Some(Slot::Ok { out, .. }) => {
-                    let exp: Vec<String> = expected_number(v, dec, thou, c.digits, c.remove_zero, c.rounding).into_iter().map(|s| format!("{} zib", s)).collect();
+                    let exp: Vec<String> = expected_number(v, dec, thou, digits, remove_zero, rounding).into_iter().map(|s| format!("{} zib", s)).collect();
                     if !exp.iter().any(|e| e == out) {
                         acc.fail(format!("printed {:?}, expected {}", out, exp.iter().map(|e| format!("{:?}", e)).collect::<Vec<_>>().join(" or ")));
                     }
@@ -415,16 +425,106 @@ impl Prop for CustomUnitFormat {
             },
             Err(p) => acc.fail(format!("panic at {}: {}", p.site, p.message)),
         }
-        acc.finish(rendered).nt(v.fract() != 0.0 || v.abs() >= 1000.0).class("user-unit-with-format-options").class_if(c.rounding != c.remove_zero, "rounding-and-zero-removal-differ")
+        acc.finish(rendered).nt(v.fract() != 0.0 || v.abs() >= 1000.0).class("user-unit-with-format-options").class_if(rounding != remove_zero, "rounding-and-zero-removal-differ").class_if(c.given & 7 != 7 && c.given & 7 != 0, "some-options-not-given")
     }
 }
 
 pub fn unit_format_strategy() -> impl Strategy<Value = UnitFormat> {
-    (value_strategy(), 0u8..=6, any::<bool>(), any::<bool>(), 0u8..4).prop_map(|(v, digits, remove_zero, rounding, seps)| {
+    (value_strategy(), 0u8..=6, any::<bool>(), any::<bool>(), 0u8..4, prop_oneof![2 => Just(7u8), 3 => 0u8..8]).prop_map(|(v, digits, remove_zero, rounding, seps, given)| {
         // a literal carries the value exactly only for moderate magnitudes and non-negative values
         let v = if v.is_finite() && v.abs() < 1e15 { v.abs() } else { 1234.5678 };
-        UnitFormat { bits: v.to_bits(), digits, remove_zero, rounding, seps }
+        UnitFormat { bits: v.to_bits(), digits, remove_zero, rounding, seps, given }
     })
+}
+
+// ---- the printed form of COMPUTED results ---------------------------------------------------------------
+
+/// Whatever line produced it - arithmetic, a phrase, a conversion, a quotient of two quantities, a name - a numeric
+/// result (plain number, percentage, amount of money, quantity of a built-in unit) is printed by the rule above from the
+/// value the AST reports.
+#[derive(Clone, Debug, Serialize, Deserialize)]
+pub struct Computed {
+    pub g: crate::mixed::GenLine,
+    pub seps: u8,
+    pub digits: u8,
+    pub remove_zero: bool,
+    pub rounding: bool,
+}
+
+pub struct ComputedResults;
+
+impl Prop for ComputedResults {
+    type Case = Computed;
+    fn name(&self) -> &'static str {
+        "computed-results"
+    }
+    fn check(&self, w: &mut Worker, c: &Computed) -> Verdict {
+        let (dec, thou) = PRINT_SEPS[c.seps as usize % 4];
+        let mut cfg = Cfg::seps(dec, thou);
+        cfg.tz = c.g.tz.clone();
+        cfg.num = Some((c.digits, c.remove_zero, c.rounding));
+        cfg.pct = Some((c.digits, c.remove_zero, c.rounding));
+        cfg.money = Some((c.remove_zero, c.rounding));
+        let text = c.g.text(dec, thou);
+        let rendered = format!("[{} {} {}] {}", c.g.src, c.g.lang, cfg.label(), text.replace('\n', " ; "));
+        let out = match w.eval_reconfigured(&cfg, &c.g.lang, &text) {
+            Ok(o) => o,
+            Err(p) => return Verdict::fail(format!("panic at {}: {}", p.site, p.message), rendered),
+        };
+        let mut acc = Acc::new();
+        let mut checked = 0;
+        let mut kinds: Vec<&'static str> = vec![];
+        for (i, slot) in out.slots.iter().enumerate() {
+            let (v, printed) = match slot {
+                Slot::Ok { v, out } => (v, out),
+                _ => continue,
+            };
+            let ok_range = |x: f64| x.is_finite() && x.abs() < 1e15;
+            let (exp, kind): (Vec<String>, &'static str) = match v {
+                V::Num(x, NT::Decimal) if ok_range(*x) => (expected_number(*x, dec, thou, c.digits, c.remove_zero, c.rounding), "computed:number"),
+                // only a unix timestamp is printed digit by digit (C14); no other result is of that kind
+                V::Num(x, NT::Raw) if ok_range(*x) && !text.to_lowercase().contains("unix") => (expected_number(*x, dec, thou, c.digits, c.remove_zero, c.rounding), "computed:number"),
+                V::Pct(x) if ok_range(*x) => (expected_number(*x, dec, thou, c.digits, c.remove_zero, c.rounding).into_iter().map(|s| format!("%{}", s)).collect(), "computed:percent"),
+                V::Money(x, code) if ok_range(*x) => match vocab().currencies.get(&code.to_lowercase()) {
+                    Some(cur) => (
+                        expected_number(*x, dec, thou, cur.digits, c.remove_zero, c.rounding)
+                            .into_iter()
+                            .map(|s| match (cur.on_left, cur.space) {
+                                (true, true) => format!("{} {}", cur.symbol, s),
+                                (true, false) => format!("{}{}", cur.symbol, s),
+                                (false, true) => format!("{} {}", s, cur.symbol),
+                                (false, false) => format!("{}{}", s, cur.symbol),
+                            })
+                            .collect(),
+                        "computed:money",
+                    ),
+                    None => continue,
+                },
+                V::Unit(x, g, idx) if ok_range(*x) => match vocab().units.iter().find(|u| u.group == *g && u.index == *idx) {
+                    Some(u) => (expected_number(*x, dec, thou, 2, true, true).into_iter().map(|s| u.format.replace("{value}", &s)).collect(), "computed:unit"),
+                    None => continue,
+                },
+                _ => continue,
+            };
+            checked += 1;
+            if !kinds.contains(&kind) {
+                kinds.push(kind);
+            }
+            if !exp.contains(printed) {
+                acc.fail(format!("line {}: the result {} is printed {:?}, expected {}", i + 1, slot.brief(), printed, exp.iter().map(|s| format!("{:?}", s)).collect::<Vec<_>>().join(" or ")));
+                break;
+            }
+        }
+        let mut vd = acc.finish(rendered).nt(checked > 0).class_if(c.digits != 2 || !c.rounding || !c.remove_zero, "non-default-format");
+        for k in kinds {
+            vd = vd.class(k);
+        }
+        vd
+    }
+}
+
+pub fn computed_strategy() -> impl Strategy<Value = Computed> {
+    (crate::mixed::any_line(), 0u8..4, prop_oneof![3 => Just(2u8), 2 => 0u8..=6], prop::bool::weighted(0.7), prop::bool::weighted(0.7)).prop_map(|(g, seps, digits, remove_zero, rounding)| Computed { g, seps, digits, remove_zero, rounding })
 }
 
 pub fn self_test() {
@@ -455,12 +555,15 @@ pub fn run(ctx: &Ctx) {
     ctx.run_table(&Print, "boundary-table", table(), true);
     ctx.run_generated(&Print, ctx.tier.pick(150_000, 3_000_000), case_strategy);
     ctx.run_generated(&CustomUnitFormat, ctx.tier.pick(400, 6_000), unit_format_strategy);
+    // computed results of every other generator's lines: printed form = the rule applied to the AST value
+    ctx.run_generated(&ComputedResults, ctx.tier.pick(40_000, 400_000), computed_strategy);
 }
 
 pub fn replay(w: &mut Worker, sub: &str, case: &serde_json::Value) -> Option<Verdict> {
     match sub {
         "print" => crate::engine::replay_case(&Print, w, case),
         "custom-unit-format" => crate::engine::replay_case(&CustomUnitFormat, w, case),
+        "computed-results" => crate::engine::replay_case(&ComputedResults, w, case),
         _ => None,
     }
 }
